@@ -29,7 +29,8 @@ Record obs := {
   o_calls : list (string * string * string * string);  (* pipeline, filter instance, ns marker, returned *)
   o_stats : list (string * string);                    (* alias, result of the stats tag *)
   o_tagok : bool;
-  o_result : option string }.
+  o_result : option string;
+  o_life : list string }.              (* GlobalFilter update cases: lineage of the new filter instances, closes of the old *)
 
 Record c02_case := {
   c_kinds : kinds_t;
@@ -39,6 +40,9 @@ Record c02_case := {
   c_mode : N;                 (* 0 Handle, 1 HandleWithBeforeAfter, 2 through a GlobalFilter *)
   c_raw : bool;
   c_script : list string;
+  c_gfprev : bool;            (* mode 2: the handling GlobalFilter inherited from a previous generation ... *)
+  c_prevb : option spec;      (* ... built from these before / after specs *)
+  c_preva : option spec;
   c_obs : obs }.
 
 Definition res_of (script : list string) (n : nat) : string := nth n script "".
@@ -60,7 +64,8 @@ Definition obs_eqb (a b : obs) : bool :=
   Bool.eqb (o_newspec a) (o_newspec b) && Bool.eqb (o_ran a) (o_ran b) &&
   Bool.eqb (o_panic a) (o_panic b) &&
   list_eqb call_eqb (o_calls a) (o_calls b) && list_eqb stat_eqb (o_stats a) (o_stats b) &&
-  Bool.eqb (o_tagok a) (o_tagok b) && opt_eqb String.eqb (o_result a) (o_result b).
+  Bool.eqb (o_tagok a) (o_tagok b) && opt_eqb String.eqb (o_result a) (o_result b) &&
+  list_eqb String.eqb (o_life a) (o_life b).
 
 (** ** the model's observables *)
 Definition present (c : c02_case) : list (option spec) :=
@@ -123,6 +128,41 @@ Definition model_hrun (q : quirks) (c : c02_case) : hrun :=
     {| hvisits := tagv 1 o; hresult := result o; hsaw_end := saw_end o; hninv := ninv o |}
   else hba q res (side_flow (c_mode c) (c_before c)) main (side_flow (c_mode c) (c_after c)) 0 DEFAULT_NS.
 
+(** lifecycle of a GlobalFilter update (GlobalFilter.reload + Pipeline.Inherit):
+    a pipeline exists only for a spec with a non-empty flow; a filter of the new
+    before (after) pipeline inherits from the previous BEFORE (AFTER) pipeline's
+    filter of the same name and kind, else it is initialised; the filters of a previous
+    pipeline are closed exactly once when the new generation has that pipeline,
+    and not at all otherwise. *)
+Definition side_exists (o : option spec) : bool :=
+  match o with Some s => match s_flow s with [] => false | _ => true end | None => false end.
+(** the previous pipeline has a filter of that name AND of the same kind (a
+    filter of another kind under the same name is not a predecessor) *)
+Definition has_decl (d : decl) (o : option spec) : bool :=
+  match o with
+  | Some s => match find_decl (dname d) (s_decls s) with Some d' => dkind d' =s dkind d | None => false end
+  | None => false
+  end.
+Definition decls_of (o : option spec) : list decl := match o with Some s => s_decls s | None => [] end.
+
+Definition life_new (pn : string) (g0 : bool) (cur prev : option spec) : list string :=
+  if side_exists cur then
+    map (fun d => "new:" ++ pn ++ "/" ++ dname d ++ "<-" ++
+                  (if g0 && side_exists prev && has_decl d prev then pn ++ "/" ++ dname d else "init"))
+        (decls_of cur)
+  else [].
+Definition life_old (pn : string) (g0 : bool) (cur prev : option spec) : list string :=
+  if g0 && side_exists prev then
+    map (fun d => "old:" ++ pn ++ "/" ++ dname d ++ " closed " ++ (if side_exists cur then "1" else "0"))
+        (decls_of prev)
+  else [].
+Definition life_of (c : c02_case) : list string :=
+  if (c_mode c =? 2)%N && c_gfprev c then
+    let g0 := all_opt (spec_valid (c_kinds c)) [c_prevb c; c_preva c] in
+    (life_new "before" g0 (c_before c) (c_prevb c) ++ life_new "after" g0 (c_after c) (c_preva c) ++
+     life_old "before" g0 (c_before c) (c_prevb c) ++ life_old "after" g0 (c_after c) (c_preva c))%list
+  else [].
+
 Definition model_obs (q : quirks) (c : c02_case) : obs :=
   let k := c_kinds c in
   let ps := present c in
@@ -130,7 +170,7 @@ Definition model_obs (q : quirks) (c : c02_case) : obs :=
   let ok := all_opt (spec_buildable k (c_raw c)) ps in
   if negb ok then
     {| o_valid := valid; o_newspec := false; o_ran := false; o_panic := false; o_calls := []; o_stats := [];
-       o_tagok := false; o_result := None |}
+       o_tagok := false; o_result := None; o_life := [] |}
   else
     let res := res_of (c_script c) in
     let main := run_flow (c_main c) in
@@ -141,7 +181,8 @@ Definition model_obs (q : quirks) (c : c02_case) : obs :=
     {| o_valid := valid; o_newspec := true; o_ran := true; o_panic := false;
        o_calls := calls_of fl res 0 (hvisits h); o_stats := stats_of fl res 0 (hvisits h);
        o_tagok := true;
-       o_result := if (c_mode c =? 2)%N then None else Some (hresult h) |}.
+       o_result := if (c_mode c =? 2)%N then None else Some (hresult h);
+       o_life := life_of c |}.
 
 (** ** the property checker (declarative; independent of [loop] and of [validate]) *)
 
@@ -272,7 +313,8 @@ Definition prop (c : c02_case) (o : obs) : bool :=
   (if o_newspec o && negb (c_raw c) then all_accepted (o_valid o) else true) &&
   (* every valid pipeline runs along the reference walk and does not panic *)
   (if all_opt (validspec_b k) ps then
-     negb (o_panic o) && (if o_ran o then prop_run c o else true)
+     negb (o_panic o) &&
+     (if o_ran o then prop_run c o && list_eqb String.eqb (o_life o) (life_of c) else true)
    else true).
 
 (** ** coverage class *)
